@@ -36,6 +36,7 @@ def run(ck, F, E):
     G, seen, T = panics.panic_freedom(ck, F, E, "C20", [ml.path], rows, analyzer_deps(), exempt_fns=EXEMPT, floor_sites=40)
     panics.recursion_rule(ck, F, G, seen, "C20")
     units(ck, F)
+    delta_encoding(ck, F)
     legend(ck, F)
     unfiltered(ck, F, ml)
 
@@ -99,6 +100,78 @@ def units(ck, F):
                    "semantic token columns/lengths pass through a conversion that consults the line text",
                    "SemanticToken.%s is computed from UTF-8 byte offsets of token_types() by casts and subtraction only: "
                    "wrong for any line with non-ASCII text" % (bad[0][0] if bad else ""), bad[0][2] if bad else st.span)
+
+
+def delta_encoding(ck, F):
+    """delta_line / delta_start are differences to the previously *emitted* token: the `prev_*` variables must be
+    updated in the same (innermost) loop iteration that pushes the token, from the values they are subtracted from."""
+    st = F.one("get_semantic_tokens", "abasic_lsp")
+    if st is None:
+        return
+    pushes = [c for c in st.calls() if c.callee.endswith("Vec::push") and "SemanticToken" in c.args[1]["place"].get("ty", "")]
+    loops = st.natural_loops()
+    if len(pushes) != 1 or not loops:
+        ck.missing("C20:DELTA:push", "the single SemanticToken push inside the token loop")
+        return
+    pb = pushes[0].bb
+    inner = None
+    for h, blk in loops.items():
+        if pb in blk and (inner is None or len(blk) < len(loops[inner])):
+            inner = h
+    iblk = loops[inner]
+    aggs = list(aggregates(st, "SemanticToken"))
+    names = aggs[0][3].get("fields", []) if aggs else []
+    for fname, what in (("delta_line", "line"), ("delta_start", "start")):
+        if fname not in names:
+            ck.missing("C20:DELTA:%s" % fname, "SemanticToken.%s" % fname)
+            continue
+        op = aggs[0][3]["ops"][names.index(fname)]
+        # follow copies to the Sub
+        l = op["place"]["local"] if op.get("k") in ("copy", "move") else None
+        sub = None
+        for _ in range(6):
+            d = st.unique_def(l) if l is not None else None
+            if d is None or d[0] != "assign":
+                break
+            rv = d[3]
+            if rv["k"] in ("use", "cast") and rv["op"].get("k") in ("copy", "move"):
+                pl = rv["op"]["place"]
+                if pl["proj"] and pl["proj"][-1].get("k") == "field" and not pl["proj"][:-1]:
+                    l2 = pl["local"]
+                    d2 = st.unique_def(l2)
+                    if d2 and d2[0] == "assign" and d2[3]["k"] == "binop" and d2[3]["op"] == "SubWithOverflow":
+                        sub = (d2[1], d2[3])
+                        break
+                l = pl["local"]
+                continue
+            if rv["k"] == "binop" and rv["op"] in ("Sub", "SubWithOverflow"):
+                sub = (d[1], rv)
+                break
+            break
+        ok = False
+        why = "no subtraction found behind %s" % fname
+        if sub is not None:
+            sb, rv = sub
+            prev = rv["b"]["place"]["local"] if rv["b"].get("k") in ("copy", "move") else None
+            # follow one copy (`_38 = copy _3`)
+            for _ in range(3):
+                d = st.unique_def(prev) if prev is not None else None
+                if d and d[0] == "assign" and d[3]["k"] == "use" and d[3]["op"].get("k") in ("copy", "move") and not d[3]["op"]["place"]["proj"]:
+                    prev = d[3]["op"]["place"]["local"]
+                else:
+                    break
+            in_loop = sb in iblk
+            writes = [d for d in st.defs().get(prev, []) if d[0] == "assign"]
+            resets = [d for d in writes if d[3]["k"] == "use" and d[3]["op"].get("k") == "const"]
+            updates = [d for d in writes if d not in resets]
+            upd_in = bool(updates) and all(d[1] in iblk for d in updates)
+            resets_out = all(d[1] not in iblk for d in resets)
+            ok = in_loop and upd_in and resets_out
+            why = "subtraction in token loop=%s, prev updated only in token loop=%s, resets outside=%s" % (in_loop, upd_in, resets_out)
+        ck.require(ok, "C20:DELTA:%s" % fname, "delta encoding",
+                   "%s = current %s - previous token's %s, with the previous value updated per emitted token" % (fname, what, what),
+                   "SemanticToken.%s is not the difference to the previously emitted token (%s): tokens after a line without tokens "
+                   "(blank or unnumbered) are reported on the wrong line" % (fname, why), st.span)
 
 
 def legend(ck, F):
